@@ -62,6 +62,7 @@ class FsExecutor(object):
         self.stdin_pos = 0
         self.out_expect = {1: b'', 2: b''}
         self.std_closed = set()
+        self.tree_unknown = False
         open(self.stdout_path, 'wb').close()
         open(self.stderr_path, 'wb').close()
         variant = W.FORCE_VARIANT or variant
@@ -179,6 +180,14 @@ class FsExecutor(object):
         rights = (RIGHTS_READ if read else 0) | (RIGHTS_WRITE if write else 0)
         self.agent.fill(RES, 16)
         r = self.agent.call('path_open', unstable, dirfd, 0, p, ln, oflags, rights, rights, FDFLAG_APPEND if append else 0, RES)
+        if nb[:1] != b'/' and self._stale(dirfd):
+            self.flags.add('descriptor_path_no_longer_denotes_its_directory')
+            if r == 0:
+                # a descriptor was handed out for something this model cannot name: close it again, unchecked
+                self.agent.call('fd_close', unstable, self.agent.peek_u32(RES))
+                if oflags & (O_CREAT | O_TRUNC):
+                    self.tree_unknown = True
+            return None
         flags = (os.O_RDWR if read else os.O_WRONLY) if write else os.O_RDONLY
         if oflags & O_CREAT:
             flags |= os.O_CREAT
@@ -716,6 +725,22 @@ class FsExecutor(object):
     # ---- C14: path operations
     PATH_MAX = 4096
 
+    def _stale(self, dirfd):
+        """w2c2 keeps, per directory descriptor, the path string it resolved (never normalised: 'a/../b/.' stays as written) and the
+        property defines every call as acting on that path + the guest path.  The mirror works with the normalised place.  The two
+        denote the same directory until a component that only the unnormalised string passes through ('a' in 'a/..') is renamed,
+        removed or replaced - from then on the call acts on whatever the string denotes now (usually nothing), which this model does
+        not track: such steps are executed (memory safety) but not compared."""
+        d = self.fds.get(dirfd)
+        if not d or d.get('pre') or d['closed'] or d['kind'] != 'dir' or not d.get('wpath'):
+            return False
+        try:
+            a = os.stat(d['wpath'])
+            b = os.stat(os.path.join(self.real, d['rel']) if d['rel'] else self.real)
+            return (a.st_ino, a.st_dev) != (b.st_ino, b.st_dev)
+        except OSError:
+            return True
+
     def wjoin(self, dirfd, nb):
         """the host path w2c2 forms for a guest path: an absolute one as is, otherwise the descriptor's own (never normalised) path,
         a separator unless that path ends in one, and the guest path; a directory opened through it is remembered under this string"""
@@ -790,6 +815,11 @@ class FsExecutor(object):
         rep = a.sanitizer_report()
         if rep:
             self.fail('sanitizer', 'sanitizer report during path_%s: %s' % (op, cexec.san_head(rep, 800)))
+        if (nb[:1] != b'/' and self._stale(dirfd if op != 'symlink' else d2)) or (nb2 is not None and op == 'rename' and nb2[:1] != b'/' and self._stale(d2)):
+            self.flags.add('descriptor_path_no_longer_denotes_its_directory')
+            if r == 0 and op not in ('readlink', 'filestat_get'):
+                self.tree_unknown = True
+            return
         if empty or too_long:
             if r == 0:
                 self.fail('path-accepted:%s' % ('empty' if empty else 'too-long'),
@@ -1010,6 +1040,8 @@ class FsExecutor(object):
     def final_check(self):
         if self.agent.p.poll() is not None and self.agent.p.returncode not in (0, None):
             self.fail('agent-died', 'agent exited with %r: %s' % (self.agent.p.returncode, cexec.san_head(self.agent.sanitizer_report(), 800)))
+        if self.tree_unknown:
+            return
         for dp, dns, fns in os.walk(self.mirror):
             rel = os.path.relpath(dp, self.mirror)
             rdir = os.path.join(self.real, rel)
